@@ -333,11 +333,12 @@ class Extract:
                 return r if r is not None else S("%s#p%d" % (body.short, l))
             return ("u", "undefined local _%d" % l)
         if len(ds) > 1:
-            r = self.leaf(self, body, "phi", l)
-            if r is not None:
-                return r
             d = self.reaching_def(body, l, at)
             if d is None:
+                self._at = at
+                r = self.leaf(self, body, "phi", l)
+                if r is not None:
+                    return r
                 return ("u", "local _%d has %d definitions and no unique one reaches the use" % (l, len(ds)))
         else:
             d = ds[0]
